@@ -217,6 +217,57 @@ def _plain_rounding(p):
     return False
 
 
+def row_cursor(rep, prog, rule):
+    """the stepped row iterator fetches the REQUESTED row"""
+    rep.rule(rule, "an implementation of ImageView::iter_rows_with_step that walks a row iterator forward "
+             "(the trait default used by typed images, cropped views and split parts) advances it to the "
+             "row trunc(y) of the current sampling position: either row by row (`next()` in a loop up to "
+             "the requested row) or by a jump (`nth` / `skip` / `advance_by`) whose distance is computed "
+             "from the current position (a value derived from `y as usize`). The requested rows are "
+             "trunc(start + k * step): their distance alternates between floor(step) and floor(step) + 1 "
+             "for every non-integral step, so a jump by a distance that does not depend on the position "
+             "(a stride fixed before the loop) lags behind row after row -- and only for the containers "
+             "that use this implementation, so the same pixels resize differently by container")
+    from .c14 import _taint
+    n = 0
+    for f in sorted(prog.fns.values(), key=lambda z: z.id):
+        if f.kind == "closure" or (f.d.get("method") or f.name.rsplit("::", 1)[-1]) != "iter_rows_with_step":
+            continue
+        for g in [f] + list(f.closures()):
+            seeds = set()
+            for blk in g.blocks:
+                if blk["c"]:
+                    continue
+                for st in blk["s"]:
+                    if st[0] == "a" and st[2][0] == "cast" and "FloatToInt" in str(st[2]):
+                        seeds.add(st[1][0])
+            tainted = _taint(prog, g, seeds) if seeds else set()
+            for c in g.calls():
+                nm = c.method or c.name.rsplit("::", 1)[-1]
+                if nm == "next" and "Iterator" in c.name or nm == "next" and c.method:
+                    n += 1
+                    continue
+                if nm not in ("nth", "skip", "advance_by", "step_by", "nth_back") or len(c.args) < 2:
+                    continue
+                n += 1
+                rep.touch(g)
+                a = c.args[1]
+                key = "%s|%s|distance" % (f.name, nm)
+                if isinstance(a, list) and a and a[0] in ("c", "m") and a[1] and a[1][0] in tainted:
+                    rep.ok(rule, key, c.at, "the distance of %s(..) is computed from the current position" % nm)
+                elif isinstance(a, list) and a and a[0] == "k" and str(a[1:]).find("0") >= 0 and nm == "nth" \
+                        and Sym(g).operand(a, (c.bb, "term")) == ("const", 0, "usize"):
+                    rep.ok(rule, key, c.at, "nth(0) is next()")
+                else:
+                    rep.bad(rule, key + "|position-independent", c.at,
+                            "%s advances the row iterator with %s(%s): the distance does not depend on the "
+                            "current sampling position (no value derived from `y as usize` reaches it), but "
+                            "the rows to fetch, trunc(start + k * step), are floor(step) or floor(step) + 1 "
+                            "apart: for a non-integral step the fetched rows fall behind the requested ones"
+                            % (f.name, nm, fmt(Sym(g).operand(a, (c.bb, "term")))[:60]))
+    rep.floor(rule, "row-iterator advances in iter_rows_with_step implementations", n, 1)
+
+
 def step_count(rep, prog, rule):
     rep.rule(rule, "every implementation of ImageView::iter_rows_with_step yields a row for every sampling "
              "position start_y + k * step that lies inside the image, up to max_rows: the bound of its "
@@ -432,6 +483,7 @@ def run(rep, tier):
         rep.call(type_tables.t_types, rep, prog, "C13.table")
         rep.call(step_siblings, rep, prog, "C13.step-siblings")
         rep.call(step_count, rep, prog, "C13.step-count")
+        rep.call(row_cursor, rep, prog, "C13.row-cursor")
         from . import c14
         rep.call(c14.band_start, rep, prog, "C13.band-start")
         # source and destination are split separately and zipped: all splits distribute alike
